@@ -400,6 +400,12 @@ impl Stream {
         data.entries.first().cloned()
     }
     
+    /// The greatest ID ever added (it stays when that entry is deleted or trimmed)
+    pub fn last_id(&self) -> StreamId {
+        let data = self.data.lock().unwrap();
+        data.last_id
+    }
+    
     pub fn last_entry(&self) -> Option<StreamEntry> {
         let data = self.data.lock().unwrap();
         data.entries.last().cloned()
